@@ -76,7 +76,13 @@ def write_evidence(prop: str, tier: str, res: RuleResult, mod, ctx: Ctx, wall: f
         "functions": len(ctx.p.functions),
         "call_sites": tot_calls,
         "resolved_calls_pct": round(100.0 * res_calls / tot_calls, 1) if tot_calls else 0.0,
-        "tree_digest": ctx.p.digest(),
+        "tree_digest": ctx.p_raw.digest(),
+        "normal_form": {"what": "the rules run on the program with small helpers that no rule names inlined into their callers "
+                                "(sa/normalise.py); on this tree:",
+                        "inlined_calls": ctx.normal_form.get("inlined_calls", 0),
+                        "helpers_inlined": ctx.normal_form.get("helpers", []),
+                        "helpers_fully_inlined_and_dropped": ctx.normal_form.get("removed", []),
+                        "tables_unrolled_or_pipelines_fused": ctx.normal_form.get("unrolled_tables", 0)},
         "does_not_decide": getattr(mod, "DOES_NOT_DECIDE", ""),
         "exhaustive": True,
     }
@@ -89,6 +95,8 @@ def write_evidence(prop: str, tier: str, res: RuleResult, mod, ctx: Ctx, wall: f
             "external summary tables (stdlib behaviour) in sa/effects.py and sa/rules/memo.py",
             "frozen discharge tables in sa/tables.py, each entry with its reason and side condition",
             "spil.conf is imported before any path configuration module",
+            "the normal form (helper inlining, table unrolling, pipeline fusion) preserves behaviour up to the evaluation order "
+            "of hoisted argument expressions",
         ] + list(getattr(mod, "ASSUMPTIONS", [])),
         "wall_s": round(wall, 3),
         "violations": n_unlisted,
